@@ -486,10 +486,18 @@ def _rate_alignment(mod, flow, rdef, level, epoch):
         """value of a one-element literal [c], else None"""
         if isinstance(n, (ast.List, ast.Tuple)) and len(n.elts) == 1:
             e = n.elts[0]
-            if isinstance(e, ast.Constant) and isinstance(e.value, (int, float)):
-                return e.value
-            if isinstance(e, ast.UnaryOp) and isinstance(e.op, ast.USub) and isinstance(e.operand, ast.Constant):
-                return -e.operand.value
+            sign = 1
+            while isinstance(e, ast.UnaryOp) and isinstance(e.op, (ast.USub, ast.UAdd)):
+                sign = -sign if isinstance(e.op, ast.USub) else sign
+                e = e.operand
+            if isinstance(e, ast.Constant) and isinstance(e.value, (int, float)) and not isinstance(e.value, bool):
+                return sign * e.value
+            # np.inf / math.inf / float('inf'): an infinite first rate; nan compares False with everything
+            txt = ast.unparse(e).replace(" ", "").replace('"', "'").lower()
+            if txt in ("np.inf", "numpy.inf", "math.inf", "float('inf')", "float('infinity')", "np.infty"):
+                return sign * float("inf")
+            if txt in ("np.nan", "numpy.nan", "math.nan", "float('nan')"):
+                return 0.0
         return None
 
     ca, cb = const1(a), const1(b)
